@@ -1,6 +1,7 @@
 package main
 
 import (
+	"strconv"
 	"encoding/json"
 	"fmt"
 	"reflect"
@@ -61,6 +62,16 @@ func (c *Ctx) genStyle() *excelize.Style {
 		st.NumFmt = []int{1, 2, 3, 4, 9, 10, 11, 14, 22, 49}[r.Intn(10)]
 	case 2:
 		st.CustomNumFmt = sp([]string{"0.000", "#,##0.00;[Red]-#,##0.00", "yyyy-mm-dd", "0.0%", "[h]:mm:ss"}[r.Intn(5)])
+	case 3:
+		// currency formats: the id names a format code, DecimalPlaces and NegRed complete it
+		st.NumFmt = []int{165, 188, 164, 200, 189}[r.Intn(5)]
+		st.NegRed = r.Intn(2) == 0
+		switch r.Intn(3) {
+		case 1:
+			st.DecimalPlaces = ip(2)
+		case 2:
+			st.DecimalPlaces = ip(4)
+		}
 	}
 	return st
 }
@@ -114,6 +125,20 @@ func styleSubsumes(req, got *excelize.Style) string {
 	}
 	if req.Protection != nil && (got.Protection == nil || *req.Protection != *got.Protection) {
 		return fmt.Sprintf("protection %+v reads back %+v", req.Protection, got.Protection)
+	}
+	if code, ok := c17CurrencyCode(req); ok {
+		// a currency format reads back as its format code (the id too when the code is the plain one)
+		if got.CustomNumFmt == nil || *got.CustomNumFmt != code {
+			gc := "<nil>"
+			if got.CustomNumFmt != nil {
+				gc = *got.CustomNumFmt
+			}
+			return fmt.Sprintf("currency format %d (decimal places %v, negative red %v) is the code %q, reads back %q", req.NumFmt, c17dp(req), req.NegRed, code, gc)
+		}
+		if got.NegRed != req.NegRed {
+			return fmt.Sprintf("NegRed %v reads back %v", req.NegRed, got.NegRed)
+		}
+		return ""
 	}
 	if req.NumFmt != got.NumFmt {
 		return fmt.Sprintf("NumFmt %d reads back %d", req.NumFmt, got.NumFmt)
@@ -398,4 +423,54 @@ func replayC17(c *Ctx, f Failure) {
 		return
 	}
 	runC17(c)
+}
+
+// the plain format code of a currency id, as a fresh workbook reports it for the id alone (the table of codes is the
+// library's; what is judged is how DecimalPlaces, NegRed and earlier registrations interact with it)
+var c17currency = map[int]string{}
+
+func c17CurrencyBase(id int) (string, bool) {
+	if code, ok := c17currency[id]; ok {
+		return code, code != ""
+	}
+	f := excelize.NewFile()
+	defer f.Close()
+	code := ""
+	if sid, err := f.NewStyle(&excelize.Style{NumFmt: id}); err == nil {
+		if g, err := f.GetStyle(sid); err == nil && g.CustomNumFmt != nil {
+			code = *g.CustomNumFmt
+		}
+	}
+	c17currency[id] = code
+	return code, code != ""
+}
+
+func c17dp(s *excelize.Style) string {
+	if s.DecimalPlaces == nil {
+		return "unset"
+	}
+	return strconv.Itoa(*s.DecimalPlaces)
+}
+
+// the format code a currency style denotes (documented: DecimalPlaces replaces the two decimals, NegRed adds a red
+// negative section)
+func c17CurrencyCode(s *excelize.Style) (string, bool) {
+	if s.NumFmt < 164 || s.CustomNumFmt != nil {
+		return "", false
+	}
+	fc, ok := c17CurrencyBase(s.NumFmt)
+	if !ok {
+		return "", false
+	}
+	if s.DecimalPlaces != nil {
+		dp := "0"
+		if *s.DecimalPlaces > 0 {
+			dp += "." + strings.Repeat("0", *s.DecimalPlaces)
+		}
+		fc = strings.ReplaceAll(fc, "0.00", dp)
+	}
+	if s.NegRed {
+		fc = fc + ";[Red]" + fc
+	}
+	return fc, true
 }
